@@ -60,6 +60,7 @@ type FuncContract struct {
 	Method string
 	DetWhen    Expr
 	Determines []Expr // byte ranges whose final content must not depend on their initial content
+	ModGhost bool // the function has environment effects (sends, spawns, locks ...)
 	NoTerm bool // loops may omit decreases (environment loops)
 	Ghost  []string
 }
@@ -154,6 +155,7 @@ func (cs *ContractSet) lookup(P *Program, fn *ssa.Function) *FuncContract {
 			}
 			out.Props = uniq(append(out.Props, t.Props...))
 			out.Pure = out.Pure || t.Pure
+			out.ModGhost = out.ModGhost || t.ModGhost
 			out.Decoder = out.Decoder || t.Decoder
 			out.Encoder = out.Encoder || t.Encoder
 		}
@@ -423,6 +425,7 @@ func (ct *FuncContract) addClause(w, rest, where string) error {
 	case "noterm":
 		ct.NoTerm = true
 	case "ghost":
+		ct.ModGhost = true
 		ct.Ghost = append(ct.Ghost, strings.Fields(rest)...)
 	case "requires", "ensures":
 		lab, txt := labelOf(rest)
